@@ -498,3 +498,112 @@ Proof.
       rewrite (seek_contig_writes l' (SPDefined so bo fs) (Some so)); [reflexivity|exact C|exact Gl|reflexivity].
     + rewrite (seek_contig_writes l' SPPlaceholder None); [reflexivity|exact C|exact Gl|exact Logic.I].
 Qed.
+
+(* ================================================================================== *)
+(* block level                                                                         *)
+(* ================================================================================== *)
+Section BlockLevel.
+Variable utf8_valid : list N -> bool.
+
+(* block types whose codec theorems are proved below (widened as the development grows) *)
+Definition covered (b : block) : Prop :=
+  match b with
+  | BStreaminfo _ | BPadding _ | BApplication _ | BSeekTable _ => True
+  | _ => False
+  end.
+
+(* the invariants the Rust types give a value (field widths, NonZero, BlockSize,
+   Contiguous, valid UTF-8 in a String) *)
+Definition ty_block (b : block) : Prop :=
+  match b with
+  | BStreaminfo s => ty_streaminfo s
+  | BPadding n => n <= BLOCKSIZE_MAX
+  | BApplication a => ty_application a
+  | BSeekTable l => ty_seektable l
+  | _ => True
+  end.
+(* values the encoding can represent faithfully (excludes the one known aliasing class) *)
+Definition canon_block (b : block) : Prop :=
+  match b with BStreaminfo s => canon_streaminfo s | _ => True end.
+
+Lemma body_write_read b bs r : covered b -> ty_block b -> canon_block b -> write_body b = Ok bs ->
+  read_body utf8_valid (block_type b) (lenN bs) (bs ++ r) = Ok (b, r).
+Proof.
+  intros Cv T C W. destruct b as [si|n|a|l|v|c|x]; try contradiction; cbn [write_body block_type read_body ty_block canon_block] in *.
+  - rewrite (pbind_eq read_streaminfo _ _ si r) by (apply streaminfo_write_read; assumption). reflexivity.
+  - unfold write_padding in W. apply Ok_inj in W. subst bs. rewrite lenN_zerosN.
+    rewrite (pbind_eq (read_padding n) _ _ n r) by apply padding_write_read. reflexivity.
+  - unfold write_application in W. apply Ok_inj in W. subst bs. rewrite lenN_app, lenN_be_bytes.
+    change (N.of_nat 4) with 4. rewrite <- app_assoc.
+    rewrite (pbind_eq (read_application _) _ _ a r) by (apply application_write_read; apply T). reflexivity.
+  - pose proof W as W'. unfold write_seektable in W'. apply write_seekpoints_ok in W'. destruct W' as [E _].
+    rewrite E at 1. rewrite lenN_enc_all_seek.
+    rewrite (pbind_eq (read_seektable _) _ _ l r) by (apply seektable_write_read; assumption). reflexivity.
+Qed.
+
+Lemma check_seekpoints_spec : forall l lo,
+  match write_seekpoints lo l with
+  | Ok _ => check_seekpoints lo l = Ok tt
+  | Err _ => exists e, check_seekpoints lo l = Err e
+  | Panic _ => False
+  end.
+Proof.
+  induction l as [|x l IH]; intros lo; cbn [write_seekpoints check_seekpoints]; [reflexivity|].
+  destruct x as [so bo fs|].
+  - destruct (so =? U64_MAX); [eauto|].
+    destruct lo as [lo|]; [destruct (lo <? so); [|eauto]|];
+      specialize (IH (Some so)); destruct (write_seekpoints (Some so) l); cbn [bind]; auto.
+  - specialize (IH lo). destruct (write_seekpoints lo l); cbn [bind]; auto.
+Qed.
+
+(* the size computed from the field widths is the number of bytes written *)
+Lemma body_size_write b : covered b -> ty_block b ->
+  match write_body b with
+  | Ok bs => body_size b = Ok (lenN bs)
+  | Err _ => exists e, body_size b = Err e
+  | Panic k => body_size b = Panic k
+  end.
+Proof.
+  intros Cv T. destruct b as [si|n|a|l|v|c|x]; try contradiction; cbn [write_body body_size ty_block] in *.
+  - unfold write_streaminfo.
+    destruct (negb (si_minf si <? 2 ^ 24)); [eauto|]. destruct (negb (si_maxf si <? 2 ^ 24)); [eauto|].
+    destruct (negb (si_rate si <? 2 ^ 20)); [eauto|]. destruct (negb (si_ch si - 1 <? 8)); [eauto|].
+    destruct (bitcount_checked_sub 31 (si_bps si) 1); [|reflexivity].
+    destruct (negb (si_total si <? 2 ^ 36)); [eauto|].
+    rewrite !lenN_app, !lenN_be_bytes.
+    rewrite lenN_bytes_of_bits by (rewrite !app_length, !wr_length; reflexivity).
+    destruct T as (_ & _ & _ & _ & _ & _ & _ & _ & T9).
+    destruct (si_md5 si) as [m|]; [destruct T9 as [-> _]|rewrite lenN_zerosN]; reflexivity.
+  - unfold write_padding. rewrite lenN_zerosN. reflexivity.
+  - unfold write_application. rewrite lenN_app, lenN_be_bytes. reflexivity.
+  - unfold write_seektable. pose proof (check_seekpoints_spec l None) as H.
+    destruct (write_seekpoints None l) as [bs|e|k] eqn:W.
+    + rewrite H. cbn [bind]. apply write_seekpoints_ok in W. destruct W as [-> _].
+      rewrite lenN_enc_all_seek. reflexivity.
+    + destruct H as [e' ->]. cbn [bind]. eauto.
+    + contradiction.
+Qed.
+
+Lemma write_block_inv last b bs : covered b -> ty_block b -> write_block last b = Ok bs ->
+  exists body, write_body b = Ok body /\ lenN body <= BLOCKSIZE_MAX /\
+               body_size b = Ok (lenN body) /\
+               bs = write_header (mkHeader last (block_type b) (lenN body)) ++ body.
+Proof.
+  intros Cv T W. unfold write_block in W. pose proof (body_size_write b Cv T) as S.
+  destruct (write_body b) as [body|e|k].
+  - rewrite S in W. cbn [bind] in W. destruct (N.ltb_spec BLOCKSIZE_MAX (lenN body)) as [|Hle]; [discriminate|].
+    apply Ok_inj in W. exists body. auto.
+  - destruct S as [e' S]. rewrite S in W. discriminate.
+  - rewrite S in W. discriminate.
+Qed.
+
+(* MetadataBlock::bytes() = header size field = number of body bytes written *)
+Lemma block_bytes_spec last b bs : covered b -> ty_block b -> write_block last b = Ok bs ->
+  exists body, bs = write_header (mkHeader last (block_type b) (lenN body)) ++ body /\
+               write_body b = Ok body /\ block_bytes b = Ok (Some (lenN body)).
+Proof.
+  intros Cv T W. destruct (write_block_inv last b bs Cv T W) as (body & Wb & Le & Sz & ->).
+  exists body. split; [reflexivity|split; [exact Wb|]]. unfold block_bytes. rewrite Sz.
+  destruct (N.leb_spec (lenN body) BLOCKSIZE_MAX); [reflexivity|lia].
+Qed.
+End BlockLevel.
